@@ -88,7 +88,9 @@ def envOf (d : D) : Env Float where
   rnd := rnd8
   lossFn pts m := match (lk d s!"loss:{showSx pts}@{m.toBits.toNat}").bind parseF with | some v => v | none => nanF
   vol pts := match (lk d s!"vol:{showSx pts}").bind parseF with | some v => v | none => nanF
-  pis p pts := match lk d s!"pis:{p}@{showSx pts}" with | some "1" => true | _ => false
+  -- (a test the real code never made answers TRUE: the model then goes on to consult the sub-triangulation oracles, which have
+  -- no record either and answer conspicuously - a containment test skipped by the code surfaces as a disagreement)
+  pis p pts := match lk d s!"pis:{p}@{showSx pts}" with | some "0" => false | _ => true
   choose pts := match (lk d s!"ch:{showSx pts}").bind String.toNat? with | some p => p | none => 999999
   triInit n := match lk d s!"tinit:{n}" with | some "1" => true | _ => false
   triSimps n := match (lk d s!"tsimps:{n}").bind parseSxs with | some l => l | none => []
